@@ -472,6 +472,14 @@ func genClock(seed int64, idx int) *Case {
 	rnd := newRand(seed, "clockplan", idx)
 	o := genOpts{profile: "clock", maxP: 4, maxColls: 4, drops: idx%5 == 0, late: false, deviants: false, junk: false, packsMin: 8, packsMax: 30, oneDst: true}
 	o.skewMs = []int{0, 1, 300, 10000}[rnd.Intn(4)]
+	if idx%5 == 3 {
+		// several downstream channels with collections placed differently downstream: packs are forwarded to the
+		// handler of another channel, whose clock may lag behind (or run ahead of) the forwarded stream
+		o.oneDst, o.deviants = false, true
+		if o.skewMs < 300 {
+			o.skewMs = 300
+		}
+	}
 	c := genCase(seed, idx, o)
 	fam := idx % 3
 	switch fam {
